@@ -64,6 +64,9 @@ func NetConn(ctx context.Context, c *Conn, msgType MessageType) net.Conn {
 		// which briefly holds writeMu, for an active write.
 		nc.writeTimerMu.Lock()
 		defer nc.writeTimerMu.Unlock()
+		if staleExpiry(nc.writeTimer, nc.writeDeadline) {
+			return
+		}
 		if !nc.writeMu.tryLock() {
 			// If the lock cannot be acquired, then there is an
 			// active write goroutine and so we should cancel the context.
@@ -84,6 +87,9 @@ func NetConn(ctx context.Context, c *Conn, msgType MessageType) net.Conn {
 	nc.readTimer = time.AfterFunc(math.MaxInt64, func() {
 		nc.readTimerMu.Lock()
 		defer nc.readTimerMu.Unlock()
+		if staleExpiry(nc.readTimer, nc.readDeadline) {
+			return
+		}
 		if !nc.readMu.tryLock() {
 			// If the lock cannot be acquired, then there is an
 			// active read goroutine and so we should cancel the context.
@@ -113,19 +119,21 @@ type netConn struct {
 	c       *Conn
 	msgType MessageType
 
-	writeTimer   *time.Timer
-	writeTimerMu sync.Mutex
-	writeMu      *mu
-	writeCtx     context.Context
-	writeCancel  context.CancelFunc
+	writeTimer    *time.Timer
+	writeTimerMu  sync.Mutex
+	writeDeadline time.Time
+	writeMu       *mu
+	writeCtx      context.Context
+	writeCancel   context.CancelFunc
 
-	readTimer   *time.Timer
-	readTimerMu sync.Mutex
-	readMu      *mu
-	readCtx     context.Context
-	readCancel  context.CancelFunc
-	readEOFed   bool
-	reader      io.Reader
+	readTimer    *time.Timer
+	readTimerMu  sync.Mutex
+	readDeadline time.Time
+	readMu       *mu
+	readCtx      context.Context
+	readCancel   context.CancelFunc
+	readEOFed    bool
+	reader       io.Reader
 }
 
 var _ net.Conn = &netConn{}
@@ -221,7 +229,25 @@ func (nc *netConn) SetDeadline(t time.Time) error {
 	return nil
 }
 
+// staleExpiry reports whether a timer callback belongs to a deadline that has since been
+// cleared or moved: the callback runs on its own goroutine and may arrive after the
+// SetDeadline call that replaced its deadline. A deadline that is still ahead is re-armed.
+// The caller holds the timer's mutex.
+func staleExpiry(t *time.Timer, deadline time.Time) bool {
+	if deadline.IsZero() {
+		return true
+	}
+	if dur := time.Until(deadline); dur > 0 {
+		t.Reset(dur)
+		return true
+	}
+	return false
+}
+
 func (nc *netConn) SetWriteDeadline(t time.Time) error {
+	nc.writeTimerMu.Lock()
+	defer nc.writeTimerMu.Unlock()
+	nc.writeDeadline = t
 	atomic.StoreInt64(&nc.writeExpired, 0)
 	if t.IsZero() {
 		nc.writeTimer.Stop()
@@ -236,6 +262,9 @@ func (nc *netConn) SetWriteDeadline(t time.Time) error {
 }
 
 func (nc *netConn) SetReadDeadline(t time.Time) error {
+	nc.readTimerMu.Lock()
+	defer nc.readTimerMu.Unlock()
+	nc.readDeadline = t
 	atomic.StoreInt64(&nc.readExpired, 0)
 	if t.IsZero() {
 		nc.readTimer.Stop()
